@@ -1,5 +1,6 @@
 """C08 — paths and strings split over several records are reassembled exactly, once."""
 import json
+import random
 
 from .. import core
 from .. import decoders as D
@@ -12,24 +13,41 @@ TRUSTED = ['Spec/Reassembly.lean: kernel-side encoders (8/16/0-byte header, 32-b
            'the specification; the harness encodes its texts with an independent Python encoder of the same layout',
            'Model/Trace.lean (vnodeGen, parseVnodes, mkWindow, hVfsLookup, globalLoop/hStringGlobal, hStringThreadname, '
            'feed, run): hand model of TracesParser, tied to the code by the sections `reassembly`, `syscall-paths`, `pipeline`',
-           'tools/gen_decoders.py (decoder IR), validated by rendering every path-taking decoder with 0-6 lookups']
+           'tools/gen_decoders.py (decoder IR), validated by rendering every path-taking decoder with 0-6 lookups',
+           'Model/Trace.vnodeGen / parseVnodes / parseVnode are ALSO tied to the source text of vnode_generator / parse_vnodes / '
+           'parse_vnode by translation (tools/gen_pyir_vn.py -> Gen/PyIRVn, source_is_expected_ir, vnode_generator_ir_eq_model, '
+           'parse_vnodes_ir_eq_model, parse_vnode_ir_eq_model); trusted for that: the translator and the interpreter '
+           'Model/PyIRVn (section vnodes-ir tests both against CPython)']
 ASSUMPTIONS = ['texts are NUL-free byte strings; `bytes.decode()` is a parameter of the model (strict UTF-8 in the driver), '
                'invalid UTF-8 in global strings (backslashreplace) is outside the model',
                'one-trace theorems assume the stream raises no exception (an exception ends the stream) and start from a '
                'well-formed state (every reachable state is: wf_start, wf_reachable)',
                'the second-phase lookup equals lookups[1] only when no later lookup record is value-equal to a record of the '
-               'first (finding K5: explicit hypothesis of syscall_paths_partial)']
+               'first (finding K5: explicit hypothesis of syscall_paths_partial)',
+               'translation tie: every record carries its argument words (PyIRVn.HasWords: event.values[0] exists, as for '
+               'every record from_kd_buf makes); bytes.decode() and self.trace_codes are parameters of the interpreter']
 LEVEL_TEXT = ('Lean theorems for ALL NUL-free byte strings of any length: the kernel encoders composed with the reassembly loops '
               'are the identity (one Vnode / string / name, vnode and string ids of the first record); through the whole '
               'parser, with arbitrary other-thread records and unrelated same-thread records interleaved, exactly one trace '
               'per text and none for continuation records; mkWindow yields the lookups in order; a kernel-checked table '
               '(regenerated decoders) says which decoder shows which lookup at which parameter position, lifted to all '
-              'windows by an evaluation lemma.')
+              'windows by an evaluation lemma.  TRANSLATION TIE: the source text of vnode_generator, parse_vnodes and parse_vnode is '
+              'translated on every run (tools/gen_pyir_vn.py, pure ast + the reflected DgbFuncQual values) into a deep embedding '
+              'of the Python subset they use (Model/PyIRVn: bytes / int / list locals, for, append, &, slices, +=, yield, the '
+              'comprehension, list(generator), try/except IndexError; generator = yielded vnodes + optional exception); '
+              'source_is_expected_ir: the generated program is that of Spec/PyIRVnExpected; vnode_generator_ir_eq_model / '
+              'parse_vnodes_ir_eq_model / parse_vnode_ir_eq_model: interpreted on ANY records, for ANY decode and code table, it '
+              'is Trace.vnodeGen / parseVnodes / parseVnode (same vnodes, same exception), so the reassembly theorems speak '
+              'about the translated source.')
 LEVEL_NOTE = ('syscall_paths_partial / syscall_shows_looked_up_paths_partial carry the K5 proviso (value-equal records of a '
               'later lookup); global strings / thread names: the interleaved records must not be records of the same thread with '
-              'the text\'s own event id (another string of the same code started in between re-opens the key).')
+              'the text\'s own event id (another string of the same code started in between re-opens the key).  For the translation '
+              'tie the translator tools/gen_pyir_vn.py and the interpreter Model/PyIRVn are trusted (tested against CPython by '
+              'the section vnodes-ir); handle_vfs_lookup, the string / thread-name handlers and the pairing stay hand-modelled '
+              '(tied by the sections reassembly / histories / pipeline; pairing: C04).')
 TECHNIQUE = ('Lean 4 proof: induction over chunk lists and over interleaved streams with a pairing-table invariant; reflective '
-             'decide over the regenerated decoder IR; differential correspondence through the whole TracesParser')
+             'decide over the regenerated decoder IR; translation validation of vnode_generator / parse_vnodes / parse_vnode '
+             '(source text -> IR -> proved equal to the model); differential correspondence through the whole TracesParser')
 
 K5_SIG = 'reassembly:identical-lookups-second-path-empty'
 
@@ -763,6 +781,323 @@ def history_oracle(case, ans):
     return None
 
 
+# ---------------------------------------------------------------------------------------------------------
+# translation tie: the program GENERATED from traces_parser.py (Gen/PyIRVn) against the real methods
+
+def translation_tie(rep):
+    """Is the IR translated from traces_parser.py the program the *_ir_eq_model theorems are about?  Returns whether the
+    generated program can be run (no `.unsupported` node)."""
+    ans = core.drive(['vnircheck'])[0]
+    if ans == 'same':
+        rep.notes.append('translation tie: Gen/PyIRVn (from traces_parser.py) = Spec/PyIRVnExpected')
+        return True
+    rep.broken.append('theorem source_is_expected_ir: the IR that tools/gen_pyir_vn.py translates from the source text of '
+                      'traces_parser.py (vnode_generator, parse_vnodes, parse_vnode) is not the program of Spec/PyIRVnExpected '
+                      'that vnode_generator_ir_eq_model / parse_vnodes_ir_eq_model / parse_vnode_ir_eq_model are proved for (%s)'
+                      % ans)
+    return 'unsupported' not in ans
+
+
+VN_TID = 0x51
+VN_NOISE = ['MACH_SCHED', 'MACH_MKRUNNABLE', 'DecrSet', 'BSC_getpid', 'TRACE_DATA_THREAD_TERMINATE']
+VN_BAD_UTF8 = [b'\xff', b'/tmp/\xc3', b'\xe2\x82', b'ab\xf0\x9f\x98', b'/x\x80y', b'\xed\xa0\x80']
+
+
+class VnBuilder:
+    """A list of records for `vnode_generator` / `parse_vnodes` / `parse_vnode`, with what the harness knows about it:
+    `lookups` = [(path text, vnode id, timestamps of its records)] while the VFS_LOOKUP records are exactly a sequence of
+    complete kernel-encoded lookups of valid NUL-free texts (None once something else was put among them)."""
+
+    def __init__(self, rng, lookup_eid=None):
+        self.s = Stream(rng)
+        self.rng = rng
+        self.eid = PL.IDS['VFS_LOOKUP'] if lookup_eid is None else lookup_eid
+        self.lookups = []
+        self.pure = True
+        self.tags = set()
+
+    def chunks(self, raw, vnode):
+        out = [vnode.to_bytes(8, 'little') + raw[:24].ljust(24, b'\0')]
+        raw = raw[24:]
+        while raw:
+            out.append(raw[:32].ljust(32, b'\0'))
+            raw = raw[32:]
+        return out
+
+    def lookup(self, text, vnode, quals=None, drop=(), between=None, tid=VN_TID):
+        """One lookup; `quals` overrides the qualifier of record i, `drop` leaves records out: anything but the kernel's
+        own shape makes the stream one the property says nothing about."""
+        raw = text if isinstance(text, bytes) else text.encode()
+        cs = self.chunks(raw, vnode)
+        ts = []
+        for i, c in enumerate(cs):
+            q = (START if i == 0 else 0) | (END if i == len(cs) - 1 else 0)
+            if quals and i in quals:
+                q = quals[i]
+            if i in drop:
+                continue
+            if i and between:
+                between()
+            self.s.ev(None, q, tid, data=c, eid=self.eid)
+            ts.append(self.s.ts)
+        ok = not quals and not drop and isinstance(text, str) and '\0' not in text
+        if ok and self.lookups is not None:
+            self.lookups.append([text, vnode, ts])
+        else:
+            self.lookups = None
+        return ts
+
+    def noise(self):
+        """a record that is not a VFS_LOOKUP record: other codes of the table (same and other threads, all qualifiers) and
+        codes the table does not name"""
+        self.pure = False
+        self.tags.add('interleaved')
+        rng = self.rng
+        r = rng.random()
+        tid = rng.choice([VN_TID, VN_TID, 0x77])
+        if r < 0.2:
+            self.s.ev(None, rng.choice([NONE, START, END, 3]), tid, [1, 2, 3, 4], eid=UNDECODABLE)
+        elif r < 0.4:
+            self.s.ev('BSC_open', rng.choice([START, END]), tid, [rng.randrange(1 << 64), 0x2f746d70, 0x41414141, 0])
+        else:
+            self.s.ev(rng.choice(VN_NOISE), rng.choice([NONE, NONE, START, END, 3]), tid,
+                      [rng.randrange(1 << 64), 0x2f2f2f2f2f2f2f2f, 0, rng.randrange(256)])
+
+    def case(self, kind, extra_codes=None):
+        codes = PL.restricted_codes(self.s.recs, extra=('VFS_LOOKUP',))
+        if extra_codes is not None:
+            codes = extra_codes
+        return {'codes': {str(k): v for k, v in codes.items()}, 'events': [r.hex() for r in self.s.recs],
+                'meta': {'kind': kind, 'lookups': self.lookups, 'pure': self.pure, 'tags': sorted(self.tags),
+                         'records': len(self.s.recs)}}
+
+
+def vn_vnode(rng):
+    return rng.choice([0, 1, 7, 0xdeadbeef, (1 << 64) - 1, rng.randrange(1 << 64), rng.randrange(1 << 32)])
+
+
+def vn_cases(rng, tier):
+    hi = 200 if tier == 'quick' else 400
+    cases = []
+    emph = set(emphasis('lookup', hi))
+    # 1. one lookup of every length; on its own, and inside a window of other records
+    for length in range(0, hi + 1):
+        b = VnBuilder(rng)
+        b.lookup(ascii_text(rng, length), vn_vnode(rng))
+        cases.append(b.case('one'))
+        b = VnBuilder(rng)
+        b.noise()
+        b.lookup(utf8_text(rng, 'lookup', length), vn_vnode(rng), between=(b.noise if length % 2 else None))
+        b.noise()
+        cases.append(b.case('one-in-window'))
+        if length in emph or tier != 'quick':
+            for _ in range(2):
+                b = VnBuilder(rng)
+                b.lookup(utf8_text(rng, 'lookup', length), vn_vnode(rng))
+                cases.append(b.case('one'))
+    # 2. a multi-byte character across every record boundary, every size and split point
+    for nb in range(1, 5 if tier == 'quick' else 13):
+        length = 24 + 32 * (nb - 1) + rng.randrange(3, 20)
+        for k in (2, 3, 4):
+            for j in range(1, k):
+                b = VnBuilder(rng)
+                if rng.random() < 0.5:
+                    b.noise()
+                b.lookup(utf8_text(rng, 'lookup', length, fixed=(k, j)), vn_vnode(rng), between=rng.choice([None, b.noise]))
+                cases.append(b.case('utf8-boundary'))
+    # 3. several lookups in one list (the reset after the yield; parse_vnode takes the first)
+    lens = [0, 1, 5, 23, 24, 25, 31, 32, 33, 55, 56, 57, 88, 120, 184]
+    for _ in range(150 if tier == 'quick' else 2500):
+        b = VnBuilder(rng)
+        noisy = rng.random() < 0.6
+        n = rng.choice([2, 2, 3, 4, 6])
+        for i in range(n):
+            if noisy and rng.random() < 0.7:
+                b.noise()
+            ln = rng.choice(lens)
+            text = '' if rng.random() < 0.15 else (utf8_text(rng, 'lookup', ln) if rng.random() < 0.3 else ascii_text(rng, ln))
+            b.lookup(text, rng.choice([0, 5, vn_vnode(rng)]), between=(b.noise if noisy and rng.random() < 0.5 else None))
+        if noisy:
+            b.noise()
+        cases.append(b.case('several'))
+    # 4. streams the kernel does not produce: missing START / missing END / two STARTs / END twice / ALL in the middle
+    for _ in range(150 if tier == 'quick' else 2500):
+        b = VnBuilder(rng)
+        if rng.random() < 0.4:
+            b.lookup(ascii_text(rng, rng.choice(lens)), vn_vnode(rng))
+        ln = rng.choice([30, 57, 60, 90, 120])
+        nrec = 1 + (max(ln - 24, 0) + 31) // 32
+        how = rng.choice(['no-start', 'no-end', 'two-starts', 'drop-first', 'drop-last', 'drop-middle', 'end-twice',
+                          'all-middle', 'random'])
+        b.tags.add(how)
+        quals, drop = {}, ()
+        if how == 'no-start':
+            quals = {0: NONE}
+        elif how == 'no-end':
+            quals = {nrec - 1: NONE}
+        elif how == 'two-starts':
+            quals = {1: START if nrec > 2 else 3}
+        elif how == 'drop-first':
+            drop = (0,)
+        elif how == 'drop-last':
+            drop = (nrec - 1,)
+        elif how == 'drop-middle':
+            drop = (1,)
+        elif how == 'end-twice':
+            quals = {nrec - 2: END if nrec > 2 else 3}
+        elif how == 'all-middle':
+            quals = {1: 3}
+        else:
+            quals = {i: rng.randrange(4) for i in range(nrec)}
+        b.lookup(ascii_text(rng, ln), vn_vnode(rng), quals=quals, drop=drop,
+                 between=(b.noise if rng.random() < 0.3 else None))
+        if rng.random() < 0.7:
+            b.lookup(ascii_text(rng, rng.choice(lens)), vn_vnode(rng))
+        cases.append(b.case('malformed'))
+    # 5. paths that are not UTF-8 (decode raises inside the generator: the vnodes before it were yielded)
+    for bad in VN_BAD_UTF8:
+        for pos in range(3):
+            for pad in (0, 22, 40):
+                b = VnBuilder(rng)
+                for i in range(3):
+                    if i == pos:
+                        b.tags.add('invalid-utf8')
+                        b.lookup(b'p' * pad + bad, vn_vnode(rng))
+                    else:
+                        b.lookup(ascii_text(rng, rng.choice([3, 30])), vn_vnode(rng))
+                    if rng.random() < 0.3:
+                        b.noise()
+                cases.append(b.case('invalid-utf8'))
+    # 6. no records / no lookup records
+    b = VnBuilder(rng)
+    cases.append(b.case('empty'))
+    for _ in range(5):
+        b = VnBuilder(rng)
+        for _ in range(rng.randrange(1, 5)):
+            b.noise()
+        cases.append(b.case('no-lookups'))
+    # 7. another code table: the records of the bundled VFS_LOOKUP id are NOT lookups, those of another id are
+    other = PL.IDS['MACH_SCHED']
+    for _ in range(20 if tier == 'quick' else 300):
+        b = VnBuilder(rng, lookup_eid=other)
+        b.tags.add('remapped-table')
+        b.pure = False
+        for _ in range(rng.randrange(1, 4)):
+            b.lookup(ascii_text(rng, rng.choice(lens)), vn_vnode(rng))
+            if rng.random() < 0.6:       # a record of the bundled VFS_LOOKUP id, here named otherwise / not at all
+                b.s.ev('VFS_LOOKUP', rng.choice([START, END, 3, NONE]), VN_TID, data=b'\x09' * 8 + b'/not/a/lookup'.ljust(24, b'\0'))
+        table = {other: 'VFS_LOOKUP'}
+        if rng.random() < 0.5:
+            table[PL.IDS['VFS_LOOKUP']] = 'VFS_LOOKUP_RENAMED'
+        cases.append(b.case('remapped-table', extra_codes=table))
+    # 8. arbitrary qualifiers and payloads on lookup records
+    for _ in range(100 if tier == 'quick' else 3000):
+        b = VnBuilder(rng)
+        b.lookups = None
+        b.tags.add('soup')
+        for _ in range(rng.randrange(1, 9)):
+            if rng.random() < 0.2:
+                b.noise()
+            data = bytes(rng.choice([0, 0, 0x2f, 0x61, 0x62, rng.randrange(128)]) for _ in range(32))
+            b.s.ev('VFS_LOOKUP', rng.randrange(4), rng.choice([VN_TID, 0x77]), data=data)
+        cases.append(b.case('soup'))
+    return cases
+
+
+def vn_line(case):
+    codes = {int(k): v for k, v in case['codes'].items()}
+    return ('vnir %s %s' % (PL.codes_arg(codes), ' '.join(case['events']))).rstrip()
+
+
+def vn_show(v):
+    return '%s:%d:%s' % ('+'.join(str(e.timestamp) for e in v.ktraces) or '-', v.vnode_id, core.hs(v.path))
+
+
+def vn_show_list(vs):
+    return ','.join(vn_show(v) for v in vs) or '-'
+
+
+def vn_impl(case):
+    """The real TracesParser through vnode_generator / parse_vnodes / parse_vnode, one parser object for the three calls."""
+    codes = {int(k): v for k, v in case['codes'].items()}
+    evs = [PL.from_kd_buf(bytes.fromhex(h)) for h in case['events']]
+    p = PL.TracesParser(codes, {}, {})
+    ys, err = [], '-'
+    try:
+        for v in p.vnode_generator(list(evs)):
+            ys.append(v)
+    except Exception as e:  # noqa: BLE001
+        err = core.err_name(e)
+    g = 'G=%s err=%s' % (vn_show_list(ys), err)
+    try:
+        v = vn_show_list(p.parse_vnodes(list(evs)))
+    except Exception as e:  # noqa: BLE001
+        v = '!' + core.err_name(e)
+    try:
+        f = vn_show(p.parse_vnode(list(evs)))
+    except Exception as e:  # noqa: BLE001
+        f = '!' + core.err_name(e)
+    return 'ok %s ;V=%s ;F=%s' % (g, v, f)
+
+
+def vn_parse(ans):
+    g, v, f = ans[3:].split(' ;')
+    gy, ge = g.split(' err=')
+    return gy[2:], ge, v[2:], f[2:]
+
+
+def vn_oracle(case, ans):
+    """Stated on the implementation's answer only: the harness knows the lookups it encoded.  A list whose VFS_LOOKUP
+    records are complete kernel-encoded lookups gives exactly one vnode per lookup — its records, its vnode id, its path."""
+    m = case['meta']
+    if m['lookups'] is None:
+        return None
+    want = ['%s:%d:%s' % ('+'.join(map(str, ts)), vn, core.hs(text)) for text, vn, ts in m['lookups']]
+    want_all = ','.join(want) or '-'
+    where = '%d lookups %r among %d records (%s)' % (len(want), [(t, v) for t, v, _ in m['lookups']][:4], m['records'],
+                                                     ', '.join(m['tags']) or 'lookup records only')
+    if not ans.startswith('ok G='):
+        return ('vnodes:exception', '%s: %s' % (where, ans))
+    gy, ge, v, f = vn_parse(ans)
+    if m['pure'] and (gy != want_all or ge != '-'):
+        return ('vnodes:generator:wrong-vnodes', 'vnode_generator on %s yields %s (ends with %s), encoded %s' % (where, gy, ge, want_all))
+    if v != want_all:
+        return ('vnodes:parse_vnodes:wrong-vnodes', 'parse_vnodes on %s gives %s, encoded %s' % (where, v, want_all))
+    first = want[0] if want else '-:0:-'
+    if f != first:
+        return ('vnodes:parse_vnode:wrong-vnode', 'parse_vnode on %s gives %s, the first lookup is %s' % (where, f, first))
+    return None
+
+
+def vn_nontrivial(case, got):
+    m = case['meta']
+    return m['records'] > 1 and got.startswith('ok G=') and got != 'ok G=- err=- ;V=- ;F=-:0:-'
+
+
+def section_vnodes_ir(rep, rng, tier):
+    runnable = translation_tie(rep)
+    if not runnable:
+        rep.notes.append('section vnodes-ir: the translation contains .unsupported nodes; the generated program is not run, the '
+                         'property is still checked on the real methods')
+    core.run_section(
+        rep, 'vnodes-ir', vn_cases(rng, tier), line_fn=vn_line, impl_fn=vn_impl, oracle_fn=vn_oracle,
+        skip_fn=lambda m: m == 'unsupported' or 'Unmodelled' in m, nontrivial_fn=vn_nontrivial,
+        kind_fn=lambda c, got: c['meta']['kind'] + ('/raises' if ' err=-' not in got else ''),
+        rule='the program GENERATED from traces_parser.py (Gen/PyIRVn: vnode_generator, parse_vnodes, parse_vnode) run by the '
+             'interpreter of Model/PyIRVn (`vnir`) vs. the real TracesParser.vnode_generator / parse_vnodes / parse_vnode on the '
+             'same record lists: one lookup of every byte length 0..%d (extra at 24+32k±1), alone and inside other records; '
+             'a 2/3/4-byte character across every record boundary at every split point; 2-6 lookups in a row (empty paths, '
+             'repeated vnode ids) with non-lookup records of the table and of unknown codes in between; missing START / '
+             'missing END / two STARTs / dropped first, middle, last record / END twice / random qualifiers; paths that are '
+             'not UTF-8 in the first, second, third lookup; no records; no lookup records; a code table that names another id '
+             'VFS_LOOKUP; random qualifiers and payloads.  Compared: the vnodes yielded (record timestamps, vnode id, path) and '
+             'the exception that ends the generator, the list / exception of parse_vnodes, the vnode of parse_vnode.  Oracle '
+             '(code only): when the lookup records are complete kernel-encoded lookups of valid texts, each gives exactly '
+             '(its records, its vnode id, its path), parse_vnode the first; non-trivial = more than one record and at least '
+             'one vnode or an exception' % (200 if tier == 'quick' else 400),
+        sample_fn=lambda c: {'kind': c['meta']['kind'], 'records': c['meta']['records'], 'tags': c['meta']['tags']})
+
+
 def line(case):
     return PL.line(case)
 
@@ -772,6 +1107,8 @@ def impl_fn(case):
 
 
 def correspondence(rep, rng, tier):
+    # 0. translation tie of vnode_generator / parse_vnodes / parse_vnode (own random stream: the sections below keep theirs)
+    section_vnodes_ir(rep, random.Random(rng.getrandbits(64) ^ 0x766e6972), tier)
     # 1. one text, whole parser
     cases = reassembly_cases(rng, tier)
     core.run_section(
@@ -849,7 +1186,7 @@ def correspondence(rep, rng, tier):
 
 
 ORACLES = {'reassembly': reassembly_oracle, 'syscall-paths': syscall_oracle, 'identical-lookups': k5_oracle,
-           'histories': history_oracle}
+           'histories': history_oracle, 'vnodes-ir': vn_oracle}
 
 
 def replay(path):
@@ -860,6 +1197,22 @@ def replay(path):
         print('nothing to replay (no failing input was recorded):', r.get('no_longer_checks'))
         return 1
     case, sec = rp['case'], rp.get('section', 'reassembly')
+    if sec == 'vnodes-ir':
+        try:
+            got = vn_impl(case)
+        except Exception as e:
+            got = 'err ' + core.err_name(e)
+        model = core.drive([vn_line(case)])[0]
+        print('meta :', json.dumps(case.get('meta'), ensure_ascii=False)[:600])
+        print('impl :', got[:3000])
+        print('IR   :', model[:3000])
+        res = vn_oracle(case, got)
+        if res:
+            print('oracle:', res[0], '-', res[1][:1500])
+            print(f'VIOLATION property=C08 replay={path}')
+            return 1
+        print('oracle: property holds on this input')
+        return 0 if got == model or model == 'unsupported' or 'Unmodelled' in model else 1
     try:
         got = impl_fn(case)
     except Exception as e:
